@@ -13,7 +13,7 @@
    set iteration order, current directory); the correspondence over histories, invocation
    directories, PYTHONHASHSEED values and back-ends decides that per case. *)
 From Coq Require Import List String.
-From PC Require Import Base.Sexp Comp.Syntax Comp.Compile Comp.EmitProofs Comp.WfPil Comp.CompileProofs Hist.Purity Hist.Renumber Sys.System Sys.SysWfPil Sys.SysNames Sys.WfUnique Sys.SysFixed Hist.RenumberSys.
+From PC Require Import Base.Sexp Comp.Syntax Comp.Compile Comp.EmitProofs Comp.WfPil Comp.CompileProofs Hist.Purity Hist.Renumber Sys.System Sys.SysWfPil Sys.SysNames Sys.WfUnique Sys.SysFixed Hist.RenumberEmit Hist.RenumberSys Design.SysFinish.
 Import ListNotations.
 Local Open Scope string_scope.
 
@@ -72,3 +72,22 @@ Theorem C18_system_compile_history_independent : forall fs includes ctr b args l
     compile_top fs includes ctr' b args [] = OK (lines', ctr' + (ctr1 - ctr)) /\ lines' = emit_obj 12 o' /\ osim ctr ctr' 12 o o'.
 Proof. exact compile_top_renumber. Qed.
 Print Assumptions C18_system_compile_history_independent.
+
+(* compile and emit composed, one component: from any other starting counter the compile succeeds and the specification is
+   the old one with the names under the instance prefix renamed through rho_c - _Anon(k) becomes _Anon(ctr' + (k - ctr)),
+   nothing else changes (strand names are not checked against the reserved form by the compiler, hence the hypothesis) *)
+Theorem C18_compile_emit_renumber : forall ctr ctr' prefix d body c ctr1,
+  compile_comp ctr prefix d body = OK (c, ctr1) -> strand_names_user body ->
+  compile_comp ctr' prefix d body = OK (r_comp (rho_c ctr ctr1 ctr') c, ctr' + (ctr1 - ctr)) /\
+  emit_comp (r_comp (rho_c ctr ctr1 ctr') c) = map (map_line (ren_name prefix (rho_c ctr ctr1 ctr'))) (emit_comp c).
+Proof. exact compile_emit_renumber. Qed.
+Print Assumptions C18_compile_emit_renumber.
+
+(* nested systems, the two specifications line by line: a line of the second is the corresponding line of the first, or that
+   line with the names of one component instance renamed through the same shift (lrel); signal lines are identical *)
+Theorem C18_system_specifications_correspond : forall fs includes ctr b args lines ctr1,
+  compile_top fs includes ctr b args [] = OK (lines, ctr1) ->
+  (forall o, load_file fs includes 12 ctr b args "" "." = OK (o, ctr1) -> forall c, In c (leaves 12 o) -> user_keys (c_strands c)) ->
+  forall ctr', exists lines', compile_top fs includes ctr' b args [] = OK (lines', ctr' + (ctr1 - ctr)) /\ Forall2 (lrel ctr ctr') lines lines'.
+Proof. exact compile_top_renumber_lines. Qed.
+Print Assumptions C18_system_specifications_correspond.
